@@ -15,8 +15,8 @@
                                    (leading_collapsible_space = True) ; flag = previous_text.endswith(' ')
                 else flag = False
      other box: children in order; TextBox/InlineBox children are processed recursively and hand their flag on
-                only if box.is_in_normal_flow() and child.is_in_normal_flow(); any other in-flow child resets
-                the flag; returns flag and not box.is_running(). *)
+                if child.is_in_normal_flow() (whether the box itself is in flow or not); any other in-flow child
+                resets the flag; returns flag and not box.is_running(). *)
 From Coq Require Import List Ascii Bool Arith NArith.
 Import ListNotations.
 
@@ -130,28 +130,28 @@ Fixpoint pw_node (f : bool) (n : node) : node * bool :=
                match k with
                | O fl => let '(r', g) := go (if fl then false else f) r in (k :: r', g)
                | _ => let '(k', fc) := pw_node f k in
-                      let '(r', g) := go (if flow && node_flow k then fc else f) r in (k' :: r', g)
+                      let '(r', g) := go (if node_flow k then fc else f) r in (k' :: r', g)
                end
            end) f kids in
       (I flow run ks, f' && negb run)
   | O fl => (n, f)
   end.
 
-(* the loop over box.children for a parent with is_in_normal_flow() = pflow *)
-Fixpoint pw_kids (pflow : bool) (f : bool) (l : list node) : list node * bool :=
+(* the loop over box.children (the same whether the parent box is in normal flow or not) *)
+Fixpoint pw_kids (f : bool) (l : list node) : list node * bool :=
   match l with
   | [] => ([], f)
   | k :: r =>
       match k with
-      | O fl => let '(r', g) := pw_kids pflow (if fl then false else f) r in (k :: r', g)
+      | O fl => let '(r', g) := pw_kids (if fl then false else f) r in (k :: r', g)
       | _ => let '(k', fc) := pw_node f k in
-             let '(r', g) := pw_kids pflow (if pflow && node_flow k then fc else f) r in (k' :: r', g)
+             let '(r', g) := pw_kids (if node_flow k then fc else f) r in (k' :: r', g)
       end
   end.
 
 (* process_whitespace(box) as called by element_to_box on a non-text box *)
-Definition pw_box (pflow run : bool) (kids : list node) : list node * bool :=
-  let '(ks, f) := pw_kids pflow false kids in (ks, f && negb run).
+Definition pw_box (run : bool) (kids : list node) : list node * bool :=
+  let '(ks, f) := pw_kids false kids in (ks, f && negb run).
 
 (* the characters of the inline content in order; None = an in-flow box of another kind (atomic inline,
    block...), which separates the text runs; out-of-flow boxes contribute nothing *)
@@ -292,9 +292,9 @@ Fixpoint nodes_eqb (x y : list node) : bool :=
 Definition tree_judge (c : bool * bool * bool * list cnode * list cnode * bool) : nat :=
   let '(pflow, run, f, ks, out, f') := c in
   let ks := map un ks in let out := map un out in
-  let '(m, mf) := pw_kids pflow f ks in
+  let '(m, mf) := pw_kids f ks in
   (if nodes_eqb m out && Bool.eqb (mf && negb run) f' then 0 else 1)
-  + (if pflow && inl_flows ks && all_texts sp_collapse ks then (if no_double f (flats out) then 0 else 2) else 0).
+  + (if inl_flows ks && all_texts sp_collapse ks then (if no_double f (flats out) then 0 else 2) else 0).
 
 (* text-transform on one TextBox (ASCII input): (value, text in, text out) *)
 Definition tt_judge (c : ttv * list nat * list nat) : nat :=
